@@ -469,6 +469,7 @@ def run(ctx):
                               "again": {k: x.get(k) for k in ("write", "load", "nblobs", "nchildren", "gets")}}, signature="nondeterministic-restore")
     ctx.coverage["repeated_cases"] = len(rep_idx) * 3
     ctx.coverage["nondeterministic"] = nondet
+    two_tier_restores(ctx, scratch, dist)
     ctx.coverage["distinct_nontrivial"] = len(seen)
     ctx.coverage["distribution"] = dist
     ctx.coverage["oracle_failures"] = oracle_fail
@@ -478,6 +479,36 @@ def run(ctx):
         ctx.violation("model and implementation disagree (correspondence Registry.WriteOutputs/LoadOutputs vs GrogModel.Tree) on: " + ",".join(d),
                       {"kind": "correspondence", "correspondence": "store.roundtrip vs GrogModel.Tree (writeDir/restoreDir/writeFile/restoreFile/validateOutputs)",
                        "fields": d, "request": c, "meta": m, "impl": x, "model": y, "n_disagreements": len(disagreements)}, found_input=False)
+
+
+def two_tier_restores(ctx, scratch, dist):
+    """restores through the real RemoteWrapper (two-tier cache): a directory sits where a file output should be, then the same digest is
+    restored again; reads failing mid-stream; consumers that stop early. Oracle: successful restores are byte-identical, the local caches
+    only hold entries that match their digests."""
+    from . import c08
+    hs = [h for h in c08.systematic_histories(ctx.rng, False) if h[3].split(":")[1] in ("blocked-restore", "peek-restore")]
+    hs = (hs if ctx.tier != "quick" else hs[::3] + [h for h in hs if h[3].endswith(":none")])
+    hs = [(ws, t, h + [{"m": "Z", "do": "restore", "targets": list(range(len(t)))}], fam) for ws, t, h, fam in hs]
+    reqs = [{"op": "store.remote", "scratch": scratch, "ws": ws, "targets": t, "history": h, "remote": ("mem", "s3")[i % 2], "progress": i % 4 < 2, "direct": i % 2 == 0}
+            for i, (ws, t, h, _) in enumerate(hs)]
+    outs = S.impl(ctx, reqs) or []
+    n = 0
+    for (ws, t, h, fam), req, x in zip(hs, reqs, outs):
+        if "error" in x or "panic" in x:
+            ctx.violation("implementation driver failed on a two-tier restore history", {"kind": "impl-crash", "request": req, "impl": x}, signature="driver-error", found_input="panic" in x)
+            continue
+        n += 1
+        for st in x.get("steps") or []:
+            for mname, bad in (st.get("local_audit") or {}).items():
+                ctx.violation("a failed restore left an entry in the local cache whose content does not match its digest (later restores of that digest are wrong): " + bad[0],
+                              {"kind": "oracle", "oracle": "content audit of the local caches after restores", "request": req, "step": st, "family": fam},
+                              signature="restore-poisons-local-cache")
+            for r in st.get("results") or []:
+                if r.get("kind", st["do"]) in ("restore", "restore-blocked") and r["outcome"] == "ok" and not r.get("equal"):
+                    ctx.violation("a restore through the two-tier cache produced outputs that differ from what was cached",
+                                  {"kind": "oracle", "oracle": "restored == cached (two-tier)", "request": req, "step": st, "family": fam},
+                                  signature="two-tier-restore-wrong-content")
+    dist["two_tier_histories"] = n
 
 
 def replay(ctx, rep):
